@@ -280,7 +280,7 @@ def scripted_rng(perms):
             return x[self._next(len(x))]
 
         def choice(self, a, size=None, replace=True, **kw):
-            a = np.asarray(a)
+            a = np.arange(a) if isinstance(a, (int, np.integer)) else np.asarray(a)
             if not replace and size is not None and size > len(a):
                 raise ValueError("Cannot take a larger sample than population when 'replace=False'")
             return a[self._next(len(a))][:size]
